@@ -7,7 +7,7 @@ S->C  : identity batches over every coefficient of every band of the pyramid thr
         DWT1DInverse / DWTInverse, integer taps, exact comparison with the composed Ref operators;
         None levels compared on the signal's extent under both readings of "zeros".
 """
-from .. import dwtmodel, dwtchecks
+from .. import dwtmodel, dwtchecks, stagetrace
 from ..findings import Findings
 
 LEVEL = "model_checking"
@@ -26,6 +26,7 @@ def run(rep):
                                  **dwtmodel.small_inv2(rep.tier))
     dwtchecks.synthesis_2d(rep, fnd, table, calls2.records, "C10")
     dwtchecks.numeric_inverse_vs_pywt(rep, "C10", rep.tier)
+    stagetrace.validate_dwt1(rep, "C10", rep.tier, "DWT1DInverse")
     rep.assumptions += ["TLC bounds in coverage.tlc_runs", "pywt.idwt with indicator taps pins Ref"]
 
 
